@@ -312,10 +312,12 @@ def rule_F2(prog):
         ok = False
         got = "no call to self.diff"
         if len(calls) == 1:
-            a = [origin(x) for x in calls[0]["args"]]
+            lets = _lets(fn)
+            a = [origin_deep(x, lets) for x in calls[0]["args"]]
             got = "self.diff(%s)" % ", ".join(a)
-            want = ["old.as_diffable_str().%s()" % tok, "new.as_diffable_str().%s()" % tok, "lit:" + flag]
-            ok = a == want
+            pat = r"^%s(\.as_diffable_str\(\))?\.%s\(\)$"
+            ok = len(a) == 3 and re.match(pat % ("old", tok), a[0]) is not None and \
+                re.match(pat % ("new", tok), a[1]) is not None and a[2] == "lit:" + flag
         r.ob(ok, "TextDiffConfig::%s: %s" % (name, got))
         if not ok:
             r.find(fn.path, "wiring", "TextDiffConfig::%s must be self.diff(old.%s(), new.%s(), %s); found %s" % (
@@ -1160,6 +1162,14 @@ def rule_F9(prog):
 
 
 # ---------------------------------------------------------------- F10
+def _lets(fn):
+    lets = {}
+    for st in find_nodes(fn.hir["body"], lambda n: n.get("k") == "let" and isinstance(n.get("pat"), dict) and n["pat"].get("k") == "bind"):
+        if st.get("init"):
+            lets[st["pat"]["id"]] = st["init"]
+    return lets
+
+
 def origin_deep(e, lets, depth=0):
     """origin() with local variables expanded through their `let` initialisers."""
     e = unwrap(e)
@@ -1175,12 +1185,19 @@ def origin_deep(e, lets, depth=0):
                               ",".join(origin_deep(a, lets, depth + 1) for a in e["args"]))
     if k == "call":
         f = unwrap(e["f"])
-        return "%s(%s)" % (origin(f), ",".join(origin_deep(a, lets, depth + 1) for a in e["args"]))
+        name = origin(f)
+        args = [origin_deep(a, lets, depth + 1) for a in e["args"]]
+        if name in ("Cow::Owned", "Cow::Borrowed") and len(args) == 1:
+            return args[0]
+        return "%s(%s)" % (name, ",".join(args))
     if k == "index":
         return "%s[%s]" % (origin_deep(e["base"], lets, depth + 1), origin_deep(e["idx"], lets, depth + 1))
     if k == "binary":
         return "(%s%s%s)" % (origin_deep(e["l"], lets, depth + 1), e["op"], origin_deep(e["r"], lets, depth + 1))
-    return origin(e)
+    if k == "call":
+        pass
+    o = origin(e)
+    return o
 
 
 FIRST_FORMS = ("ops[lit:0]", "ops.first().unwrap()", "ops.first().copied().unwrap()", "ops.iter().next().unwrap()")
